@@ -14,6 +14,7 @@ import RioModel.Proofs.FilterDom
 import RioModel.Model.FilterHtml
 import RioModel.Proofs.FilterDomTok
 import RioModel.Proofs.FilterDomLaws
+import RioModel.Proofs.FilterDomRec
 set_option linter.unusedSimpArgs false
 set_option linter.unusedVariables false
 
@@ -348,6 +349,52 @@ theorem compose_universal (ev : Bytes → Bytes → Bool) (lower : String → St
       serializeList (editAllD (decOf ev) doc fs) :=
   filters_compose htmlTokenize ev vtU lower vtU_lossless doc fs (stepsOK_of_simple simpleLaws ev fs doc h)
 
+/-- **The `Simple` grammar has a decidable, sound recogniser** (`simpleLB`, Proofs/FilterDomRec.lean: the attribute text is
+parsed greedily — white space, key, `=` + quoted / unquoted value or nothing, repeated). -/
+theorem simple_recogniser_sound (doc : List Node) (h : simpleLB doc = true) : SimpleL simpleLaws doc :=
+  simpleLB_sound doc h
+
+/-- **The universal composition theorem with decidable hypotheses**: where the recogniser `stepsSimpleB` answers `true`
+(every document a filter sees is `Simple`, valid UTF-8 and not empty, every filter in its domain), the chain model with the
+C16 tokenizer emits the serialisation of the reference edits.  No tokenizer hypothesis; the driver evaluates the
+recogniser on every generated case (tag `thm-universal-applies`). -/
+theorem compose_universal_checked (ev : Bytes → Bytes → Bool) (lower : String → String) (doc : List Node)
+    (fs : List BodyFilter) (h : stepsSimpleB ev doc fs = true) :
+    (Chain.new noCodec lower fs [] : Chain Unit Unit).run htmlTokenize ev noCodec [serializeList doc] =
+      serializeList (editAllD (decOf ev) doc fs) :=
+  compose_universal ev lower doc fs (stepsSimpleB_sound ev fs doc h)
+
+/-! ### the Content-Type gate (`FilterBodyAction::new` reads the response headers) -/
+
+/-- **With response headers**: when the gate is open — no `Content-Type` header, or one whose lower-cased value contains
+`text/html` (the last header of that name wins) — and there is no `Content-Encoding` header, the chain is the one built
+without headers, so every theorem above about `Chain.new … []` holds for these headers. -/
+theorem content_type_gate_open {D E : Type} (codec : Codec D E) (lower : String → String) (fs : List BodyFilter)
+    (headers : List (String × String))
+    (hct : htmlAllowed (headerValue lower filterHeaderContentType headers) = true)
+    (hce : headerValue lower filterHeaderContentEncoding headers = none) :
+    (Chain.new codec lower fs headers : Chain D E) = Chain.new codec lower fs [] :=
+  chain_new_gate_open codec lower fs headers hct hce
+
+/-- **When the gate is closed** (a `Content-Type` whose lower-cased value does not contain `text/html`) html filters build
+no stage: the body passes unchanged, for every chunking, whatever the `Content-Encoding`. -/
+theorem content_type_gate_closed {D E : Type} (codec : Codec D E) (lower : String → String) (fs : List BodyFilter)
+    (headers : List (String × String)) (hfs : ∀ f ∈ fs, ∃ a p s v, f = BodyFilter.html a p s v)
+    (hct : htmlAllowed (headerValue lower filterHeaderContentType headers) = false) (chunks : List Bytes) :
+    (Chain.new codec lower fs headers : Chain D E).run tk ev codec chunks = chunks.flatten :=
+  chain_gate_closed tk ev codec lower fs headers hfs hct chunks
+
+/-- the universal composition theorem with headers -/
+theorem compose_universal_headers (ev : Bytes → Bytes → Bool) (lower : String → String) (doc : List Node)
+    (fs : List BodyFilter) (headers : List (String × String))
+    (hct : htmlAllowed (headerValue lower filterHeaderContentType headers) = true)
+    (hce : headerValue lower filterHeaderContentEncoding headers = none)
+    (h : StepsSimple simpleLaws ev doc fs) :
+    (Chain.new noCodec lower fs headers : Chain Unit Unit).run htmlTokenize ev noCodec [serializeList doc] =
+      serializeList (editAllD (decOf ev) doc fs) := by
+  rw [content_type_gate_open noCodec lower fs headers hct hce]
+  exact compose_universal ev lower doc fs h
+
 /-- non-vacuity: a doctype declaration, an upper-case `HTML` element with a quoted `>` in an attribute value, an
 unquoted and a bare attribute, a raw-text element (`title` holding `a &amp; b`), a comment, a `p` with text, a
 self-closing `br` with white space before the solidus, text before the end tag, and a newline as the very last node — is
@@ -362,20 +409,22 @@ def exSimple : List Node :=
       Node.verb [116, 97, 105, 108] []],
    Node.verb [10] []]
 
-theorem exSimple_simple : SimpleL simpleLaws exSimple := by
-  unfold exSimple
-  simp only [SimpleL, SimpleN, simpleLaws, isTextB]
-  refine ⟨Or.inr (Or.inr ⟨[68, 79, 67, 84, 89, 80, 69], [32, 104, 116, 109, 108], by decide, by decide⟩), by decide, ⟨rfl, ?_, ?_, ?_⟩, by decide,
-    Or.inl ⟨by decide, by decide⟩, trivial, trivial⟩
-  · exact ⟨by decide, by decide,
-      [⟨[32], [108, 97, 110, 103], .dq [97, 62, 98]⟩, ⟨[32], [120], .unq [49]⟩, ⟨[32], [104, 105, 100, 100, 101, 110], .none⟩], [], by decide, by decide, by decide⟩
-  · exact (by decide : Rio.Html.Tokenizer.nameOK [72, 84, 77, 76] = true)
-  · refine ⟨⟨rfl, ?_⟩, by decide, Or.inr (Or.inl ⟨[32, 99, 32], by decide, by decide⟩), by decide,
-      ⟨rfl, ⟨by decide, by decide, [], [], by decide, by decide, by decide⟩, (by decide : Rio.Html.Tokenizer.nameOK [112] = true),
-        Or.inl ⟨by decide, by decide⟩, trivial, trivial⟩, by decide,
-      ⟨rfl, by decide, by decide, [], [32], by decide, by decide, by decide, by decide⟩, by decide,
-      Or.inl ⟨by decide, by decide⟩, trivial, trivial⟩
-    exact ⟨by decide, by decide, by decide, ⟨[], [], by decide, by decide, by decide⟩, by decide⟩
+theorem exSimple_simple : SimpleL simpleLaws exSimple :=
+  simple_recogniser_sound exSimple (by decide +kernel)
+
+/-- non-vacuity of the wider side conditions (W5's `HtmlClosed4`): an `<?xml …?>` processing instruction, a custom element
+`<x-mark data:k=v>` (`-` and `:` in names), a comment whose body holds `>` and `!` (`<!-- a > b ! <p> -->`), a `script`
+whose text holds tag-like text (`if (a<b) x="</p>";`), a `style` with `a>b{}` — is `Simple`. -/
+def exSimple2 : List Node :=
+  [Node.verb [60, 63, 120, 109, 108, 32, 118, 101, 114, 115, 105, 111, 110, 61, 34, 49, 46, 48, 34, 63, 62] [],
+   Node.el [120, 45, 109, 97, 114, 107] [88, 45, 77, 97, 114, 107] [32, 100, 97, 116, 97, 58, 107, 61, 118] .normal
+     [Node.verb [60, 33, 45, 45, 32, 97, 32, 62, 32, 98, 32, 33, 32, 60, 112, 62, 32, 45, 45, 62] [],
+      Node.el [115, 99, 114, 105, 112, 116] [115, 99, 114, 105, 112, 116] [] .raw [Node.verb [105, 102, 32, 40, 97, 60, 98, 41, 32, 120, 61, 34, 60, 47, 112, 62, 34, 59] []],
+      Node.el [115, 116, 121, 108, 101] [83, 84, 89, 76, 69] [32, 109, 101, 100, 105, 97, 61, 34, 97, 108, 108, 34] .raw [Node.verb [97, 62, 98, 123, 125] []],
+      Node.verb [101, 110, 100] []]]
+
+theorem exSimple2_simple : SimpleL simpleLaws exSimple2 :=
+  simple_recogniser_sound exSimple2 (by decide +kernel)
 
 example : htmlTokenize (serializeList exSimple) = (tokensOfList vtU exSimple, []) :=
   tokenize_serialize_universal exSimple exSimple_simple
